@@ -31,6 +31,7 @@ func main() {
 		Assumptions: []string{
 			"in two thirds of the histories the publication mechanism accepts everything offered (multiset equality asserted); in one third it refuses some eons, and only 'never handed over twice once accepted' is asserted",
 			"only eons of keyper sets the keyper belongs to are recorded (as finalizeDKG does)",
+			"one sixth of the histories record the key generations from a second goroutine while the polling step runs (verdict at quiescence); statement atomicity is pgmem's (each statement executes under the engine lock, as one Postgres statement is atomic)",
 			"relative to pgmem (in-memory PostgreSQL substitute; repository DB tests pass against it)",
 		},
 		Prepare: func(env *vlib.Env) (int, error) { n = env.Scale(12000, 200000); return n, nil },
@@ -40,8 +41,98 @@ func main() {
 			agg.Require("ticks_with_multiple_pending", 200)
 			agg.Require("published", 1000)
 			agg.Require("ticks_with_refusal", 100)
+			agg.Require("concurrent_histories", 100)
 		},
 	})
+}
+
+// concurrentCase: key generations are recorded by one goroutine while the polling step runs in
+// another (as smobserver's finalizeDKG and the eon key publisher do in a keyper); the verdict is
+// taken at quiescence (producer finished, two more ticks) on the multiset of publications.
+func concurrentCase(ctx context.Context, env *vlib.Env, idx int, r *vlib.Rng, rep *vlib.Reporter, node *dbfix.Node, kp *fixtures.Keypers,
+	q *database.Queries, h *keyper.VerifEonPubKeyHandler, broadcast bool, rec *dbfix.RecMessaging, cbGot *[]pub, me int,
+) {
+	nKeys := 4 + r.Intn(12)
+	var want []pub
+	cfgIdx, act := int64(0), int64(0)
+	for e := int64(1); e <= int64(nKeys); e++ {
+		if cfgIdx == 0 || r.Chance(1, 3) {
+			cfgIdx++
+			act = 100*cfgIdx + int64(r.Intn(50))
+			if err := dbfix.InsertKeyperSet(ctx, node.Pool, cfgIdx, act, append([]common.Address{}, kp.Addrs...), 2, false); err != nil {
+				rep.Inconclusive("insert keyper set: " + err.Error())
+				return
+			}
+		}
+		if err := dbfix.InsertEon(ctx, node.Pool, e, 10*e, act, cfgIdx); err != nil {
+			rep.Inconclusive("insert eon: " + err.Error())
+			return
+		}
+		want = append(want, pub{uint64(e), uint64(act), uint64(cfgIdx), string(r.Bytes(96))})
+	}
+	order := r.Perm(nKeys)
+	done := make(chan error, 1)
+	go func() {
+		for _, i := range order {
+			if err := q.InsertEonPublicKey(ctx, database.InsertEonPublicKeyParams{EonPublicKey: []byte(want[i].Key), Eon: int64(want[i].Eon)}); err != nil {
+				done <- err
+				return
+			}
+		}
+		done <- nil
+	}()
+	ticks := 0
+	var perr error
+	for running := true; running; {
+		select {
+		case perr = <-done:
+			running = false
+		default:
+		}
+		if err := h.VerifQueryAndHandle(ctx); err != nil {
+			rep.Violationf("tick-error", map[string]any{"mode": "concurrent"}, "polling step failed although publication accepts everything: %v", err)
+			<-done
+			return
+		}
+		ticks++
+	}
+	if perr != nil {
+		rep.Inconclusive("producer: " + perr.Error())
+		return
+	}
+	for i := 0; i < 2; i++ {
+		if err := h.VerifQueryAndHandle(ctx); err != nil {
+			rep.Violationf("tick-error", map[string]any{"mode": "concurrent"}, "polling step failed: %v", err)
+			return
+		}
+	}
+	var got []pub
+	if broadcast {
+		for _, m := range rec.Messages() {
+			if e, ok := m.(*p2pmsg.EonPublicKey); ok {
+				got = append(got, pub{e.Eon, e.ActivationBlock, e.KeyperConfigIndex, string(e.PublicKey)})
+			}
+		}
+	} else {
+		got = *cbGot
+	}
+	rep.Obs("concurrent_histories", 1)
+	rep.Obs("concurrent_ticks", int64(ticks))
+	rep.Obs("published", int64(len(got)))
+	rep.Eval(fmt.Sprintf("concurrent/bc=%t/%d keys/%v", broadcast, nKeys, order), true)
+	if u := node.CheckUnsupported(); u != "" {
+		rep.Inconclusive(u)
+		return
+	}
+	if render(want) != render(got) {
+		missing, extra := diff(want, got)
+		key := "lost-key"
+		if len(missing) == 0 {
+			key = "duplicate-or-wrong-publication"
+		}
+		rep.Violationf(key, map[string]any{"mode": "concurrent", "recorded": len(want), "published": len(got), "missing": missing, "unexpected": extra},
+			"concurrent producer: %d key generations recorded, %d published; missing %d, unexpected %d", len(want), len(got), len(missing), len(extra))
+	}
 }
 
 type pub struct {
@@ -99,6 +190,10 @@ func runCase(env *vlib.Env, idx int, rep *vlib.Reporter) {
 	}
 	q := database.New(node.Pool)
 	var want []pub
+	if idx%6 == 1 {
+		concurrentCase(ctx, env, idx, r, rep, node, kp, q, h, broadcast, rec, &cbGot, me)
+		return
+	}
 	nextEon, nextCfg := int64(1), int64(0)
 	cfgAct := map[int64]int64{}
 	shape := fmt.Sprintf("bc=%t/scan=%d/", broadcast, scan)
